@@ -190,17 +190,29 @@ def switch_edges(body):
 
 
 def dominating_edges(body, bb):
-    """switch edges (src, dst, label, term) that every path entry->bb takes (computed once per body for all blocks)"""
+    """switch edges (src, dst, label, term) that every path entry->bb takes (computed once per body for all blocks).
+    Several edges of one switch that lead to the same block (merged match arms `A | B =>`) are also tried as a set: the label is then
+    ('swset', (v1, v2, ..))."""
     cache = getattr(body, '_dom_edges', None)
     if cache is None:
         cache = {}
         full = reach_from(body, [0])
+        by_switch = {}
         for (s, d, lab, t) in switch_edges(body):
             if s not in full:
                 continue
+            by_switch.setdefault((s, d), []).append((s, d, lab, t))
             r = reach_from(body, [0], blocked_edges={(s, d, lab)})
             for x in full - r:
                 cache.setdefault(x, []).append((s, d, lab, t))
+        for (s, d), es in by_switch.items():
+            if len(es) < 2:
+                continue
+            r = reach_from(body, [0], blocked_edges={(e[0], e[1], e[2]) for e in es})
+            vals = tuple(e[2][1] for e in es)
+            for x in full - r:
+                if not any(e in cache.get(x, []) for e in es):
+                    cache.setdefault(x, []).append((s, d, ('swset', vals), es[0][3]))
         body._dom_edges = cache
         body._dom_full = full
     return cache.get(bb, [])
@@ -243,36 +255,93 @@ def guard_atoms(body, bb):
 def _guard_atoms(body, bb):
     atoms = []
     for (s, d, lab, t) in dominating_edges(body, bb):
+        if lab[0] == 'swset':
+            desc = describe_operand(body, t['discr'])
+            if desc['k'] == 'discr':
+                names = dict((v, n) for v, n in (desc.get('variants') or []))
+                pd = describe_operand(body, {'cp': desc['pl']})
+                tested = [x[0] for x in t['targets']]
+                vs = []
+                for v in lab[1]:
+                    if v == 'otherwise':
+                        vs += [n for vv, n in (desc.get('variants') or []) if vv not in tested]
+                    else:
+                        vs.append(names.get(v, v))
+                atoms.append(('variantin', desc.get('adt'), tuple(vs), pd, s))
+            continue
         pol = edge_polarity(t, lab)
         desc = describe_operand(body, t['discr'])
         neg = False
-        # unwrap Not
         while desc['k'] == 'un' and desc['op'] == 'Not':
             neg = not neg
             desc = describe_operand(body, desc['a'])
         if isinstance(pol, bool) and neg:
             pol = not pol
-        if desc['k'] == 'call':
-            atoms.append(('call', callee_name(desc['term']), pol, desc['term'], s))
-        elif desc['k'] == 'place':
-            atoms.append(('field', desc['fields'], pol, desc, s))
-        elif desc['k'] == 'bin':
-            atoms.append(('cmp', desc['op'], describe_operand(body, desc['a']), describe_operand(body, desc['b']), pol, s))
-        elif desc['k'] == 'discr':
-            names = dict((v, n) for v, n in (desc.get('variants') or []))
-            pd = describe_operand(body, {'cp': desc['pl']})
-            v = lab[1]
-            if v == 'otherwise':
-                tested = [names.get(x[0], x[0]) for x in t['targets']]
-                rest = [n for vv, n in (desc.get('variants') or []) if n not in tested]
-                if len(rest) == 1:
-                    atoms.append(('variant', desc.get('adt'), rest[0], pd, s))
-                else:
-                    atoms.append(('notvariant', desc.get('adt'), tuple(tested), pd, s))
+        atoms.extend(_atoms_of(body, desc, pol, lab, t, s, 0))
+    return atoms
+
+
+def _atoms_of(body, desc, pol, lab, t, s, depth):
+    """atoms implied by `desc` having truth value / discriminant `pol`"""
+    atoms = []
+    if desc['k'] == 'call':
+        atoms.append(('call', callee_name(desc['term']), pol, desc['term'], s))
+    elif desc['k'] == 'place':
+        atoms.append(('field', desc['fields'], pol, desc, s))
+    elif desc['k'] == 'bin':
+        atoms.append(('cmp', desc['op'], describe_operand(body, desc['a']), describe_operand(body, desc['b']), pol, s))
+    elif desc['k'] == 'discr':
+        names = dict((v, n) for v, n in (desc.get('variants') or []))
+        pd = describe_operand(body, {'cp': desc['pl']})
+        v = lab[1] if lab is not None else None
+        if v == 'otherwise':
+            tested = [names.get(x[0], x[0]) for x in t['targets']]
+            rest = [n for vv, n in (desc.get('variants') or []) if n not in tested]
+            if len(rest) == 1:
+                atoms.append(('variant', desc.get('adt'), rest[0], pd, s))
             else:
-                atoms.append(('variant', desc.get('adt'), names.get(v, v), pd, s))
+                atoms.append(('notvariant', desc.get('adt'), tuple(tested), pd, s))
+        elif v is not None:
+            atoms.append(('variant', desc.get('adt'), names.get(v, v), pd, s))
+    elif desc['k'] == 'multi' and isinstance(pol, bool) and depth < 4:
+        # a named / temporary bool assigned on several paths (`let c = a && b;`): if only one definition can yield `pol`,
+        # control passed through it: its own guards hold and, if it copies another condition, that condition has value `pol`
+        cands = []
+        for (kind, dbb, dj, node) in desc.get('defs', []):
+            if kind == 'stmt' and node['rv']['k'] == 'use' and 'c' in node['rv']['op']:
+                cv = node['rv']['op']['c'].get('v')
+                if cv in (True, False, 'true', 'false', 0, 1):
+                    if (cv in (True, 'true', 1)) == pol:
+                        cands.append((kind, dbb, dj, node, 'const'))
+                    continue
+            cands.append((kind, dbb, dj, node, 'expr'))
+        if len(cands) == 1:
+            kind, dbb, dj, node, how = cands[0]
+            if dbb != s:
+                atoms.extend(guard_atoms(body, dbb))
+            if how == 'expr':
+                if kind == 'call':
+                    atoms.append(('call', callee_name(node), pol, node, dbb))
+                elif kind == 'stmt':
+                    rv = node['rv']
+                    d2 = None
+                    p2 = pol
+                    if rv['k'] == 'use':
+                        d2 = describe_operand(body, rv['op'])
+                    elif rv['k'] == 'un' and rv['op'] == 'Not':
+                        d2 = describe_operand(body, rv['a'])
+                        p2 = not pol
+                    elif rv['k'] == 'bin':
+                        d2 = {'k': 'bin', 'op': rv['op'], 'a': rv['a'], 'b': rv['b'], 'bb': dbb}
+                    if d2 is not None:
+                        while d2['k'] == 'un' and d2['op'] == 'Not':
+                            p2 = not p2
+                            d2 = describe_operand(body, d2['a'])
+                        atoms.extend(_atoms_of(body, d2, p2, None, t, dbb, depth + 1))
         else:
             atoms.append(('other', desc, pol, s))
+    else:
+        atoms.append(('other', desc, pol, s))
     return atoms
 
 
@@ -304,4 +373,6 @@ def fmt_atom(a):
         return '%s is %s' % (fmt_desc(a[3]), a[2])
     if a[0] == 'notvariant':
         return '%s not in %s' % (fmt_desc(a[3]), a[2])
+    if a[0] == 'variantin':
+        return '%s in %s' % (fmt_desc(a[3]), a[2])
     return 'other'
